@@ -280,9 +280,12 @@ class _Agg:
             self.edges += g.edges
 
 
-def trace_check(spec_dirs, consts, traces, wd, timeout=3000):
+def trace_check(spec_dirs, consts, traces, wd, timeout=3000, max_reject=12):
     """Is every observed trace a behaviour of Rescan.tla (TraceRescan.tla)?
-    Returns [(trace id, step)] of the rejected ones."""
+    Returns [(trace id, step)] of the rejected ones.  TLC stops at the first
+    line no action matches, so every rejection costs one more TLC run on the
+    rest; after max_reject rejections (a tree that has left the specification)
+    the remaining traces are not examined - they are still judged by Props."""
     import subprocess
     rejected = []
     rest = list(traces)
@@ -324,6 +327,8 @@ def trace_check(spec_dirs, consts, traces, wd, timeout=3000):
             break
         t, i = owner[hw["hw"] - 1]           # the line that no action of the specification matches
         rejected.append((t["id"], i))
+        if len(rejected) >= max_reject:
+            break
         k = rest.index(t)
         rest = rest[k + 1:]
     return rejected
@@ -361,7 +366,7 @@ def _free(k, uname, runs, steps, maxupd, prop_id, seed, sc, binary):
     info = {"universe": uname, "free_runs": len(obs), "steps": sum(len(t["steps"]) for t in obs),
             "callbacks_observed": sum(len(s["obs"]["ev"]) for t in obs for s in t["steps"]),
             "retry_timer_fired": sum(1 for t in obs for s in t["steps"] if s["act"]["op"] == "Retry"),
-            "rejected_by_spec": len(rej)}
+            "rejected_by_spec": len(rej), "rejections_examined_up_to": 12}
     return dict(obs=obs, v=v, rejected=len(rej), samples=samples, info=info)
 
 
